@@ -659,6 +659,11 @@ func (vfs *MemFS) Remove(name string) error {
 		return &fs.PathError{Op: op, Path: name, Err: err}
 	}
 
+	if child == node(parent) {
+		// The root directory can't be removed.
+		return &fs.PathError{Op: op, Path: name, Err: vfs.err.PermDenied}
+	}
+
 	parent.mu.Lock()
 	defer parent.mu.Unlock()
 
@@ -706,6 +711,11 @@ func (vfs *MemFS) RemoveAll(path string) error {
 
 	if err != vfs.err.FileExists {
 		return &fs.PathError{Op: op, Path: path, Err: err}
+	}
+
+	if child == node(parent) {
+		// The root directory can't be removed.
+		return &fs.PathError{Op: op, Path: path, Err: vfs.err.PermDenied}
 	}
 
 	parent.mu.Lock()
